@@ -206,22 +206,30 @@ def check(case, ctx):
                 raise Violation('cli-differs:%s' % name, 'fmt=%s flags=%r lang=%s\ncli=%r\nlib=%r\nsource=%r' % (fmt, case['flags'], LANGS[lang], got[-300:], libref[-300:], src[:300]))
             compared += 1
         # batch mode with two files in different folders: each file is converted relative to its OWN folder (assets, transclusion base)
-        if not preprocessed and fmt in ('epub', 'odt', 'bundlezip', 'html', 'fodt'):
+        if not preprocessed and fmt in ('epub', 'odt', 'bundlezip', 'html', 'fodt', 'bundle'):
             d2 = os.path.join(d, 'other')
             os.makedirs(d2)
             f2 = os.path.join(d2, 'second.txt')
             open(f2, 'wb').write(src.encode('utf-8', 'surrogateescape'))       # same text, but no assets next to it
             for stale in (bfile,):
-                if os.path.exists(stale):
+                if os.path.isdir(stale):
+                    shutil.rmtree(stale)
+                elif os.path.exists(stale):
                     os.unlink(stale)
-            p4 = subprocess.run(base + ['-b', f, f2], stdout=subprocess.PIPE, stderr=subprocess.PIPE, env=env)
+            # (file names relative to the working directory: writing the first result must not move the process somewhere else)
+            p4 = subprocess.run(base + ['-b', 'in.txt', os.path.join('other', 'second.txt')], stdout=subprocess.PIPE, stderr=subprocess.PIPE, env=env, cwd=d)
             lib2 = w.convert(src, fmt, ext, lang, api='sd', directory=d2).out
             b2 = os.path.join(d2, 'second' + CLI_EXT[fmt])
-            for name, got, want in (('-b first of two', open(bfile, 'rb').read() if os.path.exists(bfile) else None, libref),
-                                    ('-b second of two', open(b2, 'rb').read() if os.path.exists(b2) else None, lib2)):
+
+            def same_(got, want):
+                if fmt == 'bundle':
+                    flat = lambda b_: pkg.UUID.sub(b'UUID', b_)
+                    return isinstance(got, dict) and sorted((flat(n.encode()), flat(c)) for n, c in got.items()) == sorted((flat(n.encode()), flat(c)) for n, c, _ in pkg.members(want) if not n.endswith('/'))
+                return eq(fmt, got, want)
+            for name, got, want in (('-b first of two', read_out(bfile), libref), ('-b second of two', read_out(b2), lib2)):
                 if p4.returncode != 0 or got is None:
-                    raise Violation('cli:batch-two-files', '%s rc=%d %r' % (name, p4.returncode, p4.stderr[-300:]))
-                if not eq(fmt, got, want):
+                    raise Violation('cli:batch-two-files', '%s fmt=%s rc=%d %r' % (name, fmt, p4.returncode, p4.stderr[-300:]))
+                if not same_(got, want):
                     raise Violation('cli-differs:%s' % name.replace(' ', '-'), 'fmt=%s flags=%r: the file converted in batch mode differs from the library conversion relative to its own folder\nsource=%r' % (fmt, case['flags'], src[:300]))
                 compared += 1
             ctx.cls('cli_batch_two_folders')
